@@ -44,6 +44,7 @@ type loopInfo struct {
 	entryVals map[*ssa.Phi]Val
 	havocked  map[*ssa.Phi]Val
 	entryState *State
+	lockComps  []string
 }
 
 type Frame struct {
@@ -296,6 +297,15 @@ func (f *Frame) val(v ssa.Value) Val {
 		return x
 	case *ssa.Builtin:
 		return Val{"0", "Int"}
+	}
+	switch a := v.(type) {
+	case *ssa.FieldAddr, *ssa.IndexAddr:
+		// the address of a field / element used as a value (passed to a call, compared): an opaque non-nil reference
+		_ = a
+		x := Val{f.vc.fresh("addr_"+v.Name(), "Int"), "Int"}
+		f.vc.assume(fmt.Sprintf("(> %s 0)", x.T))
+		f.vals[v] = x
+		return x
 	}
 	// value not computed (unsupported producer): unconstrained
 	f.vc.abstract(fmt.Sprintf("%s: value %s (%T) used before definition", f.key, v.Name(), v))
@@ -685,7 +695,29 @@ func (f *Frame) enterLoop(li *loopInfo) {
 	}
 	comps, all := f.loopWrites(li)
 	if all {
+		// everything the callees may touch is unknown; activation-local ghosts change only through this
+		// function's own instructions, so those not written in the loop keep their values
+		written := map[string]bool{}
+		for _, c := range comps {
+			written[c] = true
+		}
+		keep := map[string]string{}
+		for k := range f.vc.comps {
+			if isActivationLocal(k) && !written[k] {
+				keep[k] = f.vc.get(f.cur, k)
+			}
+		}
+		oldNext := f.vc.get(f.cur, "next")
 		f.vc.havocAll(f.cur)
+		for k, v := range keep {
+			f.cur.comp[k] = v
+		}
+		for _, c := range comps {
+			if isActivationLocal(c) {
+				f.vc.havocComp(f.cur, c)
+			}
+		}
+		f.vc.assume(fmt.Sprintf("(>= %s %s)", f.vc.get(f.cur, "next"), oldNext))
 	} else {
 		for _, c := range comps {
 			if c == "next" {
@@ -695,6 +727,14 @@ func (f *Frame) enterLoop(li *loopInfo) {
 				continue
 			}
 			f.vc.havocComp(f.cur, c)
+		}
+	}
+	// automatic candidate invariant (checked on every back edge): locks are balanced per iteration
+	li.lockComps = nil
+	for _, c := range comps {
+		if strings.HasPrefix(c, "Held_") {
+			li.lockComps = append(li.lockComps, c)
+			f.vc.assumeG(f.guard, eq(f.vc.get(f.cur, c), f.vc.get(li.entryState, c)))
 		}
 	}
 	// 3. assume invariants
@@ -789,6 +829,12 @@ func (f *Frame) checkLoopInv(li *loopInfo, latch *ssa.BasicBlock, si int, entry 
 				// -1 on entry; i+1 where i+1 < len on back edge: always holds by construction of the lowering
 				_ = ph
 			}
+		}
+	}
+	if !entry && (f.safety || f.contract != nil) {
+		for _, c := range li.lockComps {
+			lbl := f.label("lock", strings.TrimPrefix(c, "Held_")+":balanced-in-loop:"+li.key)
+			f.assertObl("lock", lbl, nil, guard, eq(f.vc.get(st, c), f.vc.get(li.entryState, c)), "")
 		}
 	}
 	for _, c := range invs {
@@ -902,6 +948,12 @@ func (f *Frame) prescan() {
 		}
 	}
 	f.vc.regNext()
+	if f.vc.prescanSet == nil {
+		f.vc.prescanSet = map[string]bool{}
+	}
+	for k := range f.vc.comps {
+		f.vc.prescanSet[k] = true
+	}
 }
 
 func splitTop(s string, sep rune) []string {
